@@ -31,8 +31,10 @@ import (
 // component s_clusterrefs (C51, tie T2): the REAL xDS resolver (internal/xds/resolver) with its REAL
 // dependency manager (internal/xds/xdsdepmgr), fed by a fake xDS client, inside a synctest bubble.
 //
-//	rds <c,c,...>     the management server sends a RouteConfiguration with one route per cluster
-//	                  (prefix "/c<c>/" -> cluster c<c>); CDS/EDS resources are answered at once
+//	rds <r,r,...>     the management server sends a RouteConfiguration with one route per item; an item
+//	                  is a cluster c (prefix "/c<c>/" -> cluster c<c>) or c+c'+… (one route with several
+//	                  weighted clusters); the same cluster may be named by several routes / several
+//	                  times in one route; CDS/EDS resources are answered at once
 //	pause             a callback that blocks is put at the end of the resolver's serializer queue
 //	                  (updates from the dependency manager queue up behind it)
 //	next              the oldest blocking callback returns: the updates behind it are processed, up to
@@ -236,12 +238,25 @@ func (h *clusterRefs) Op(f []string) string {
 	res := ""
 	switch f[0] {
 	case "rds":
+		// one route per comma-separated item; an item a+b+... is ONE route with those weighted
+		// clusters; the k-th route (k > 0) that starts with a cluster already named by an earlier
+		// route gets the extra prefix "/c<c>x<k>/" so that the same cluster can be the target of
+		// several routes (a specific route and a default route to the same cluster, …)
 		var routes []*xdsresource.Route
+		seen := map[string]int{}
 		if f[1] != "-" {
-			for _, c := range strings.Split(f[1], ",") {
-				p := "/c" + c + "/"
-				routes = append(routes, &xdsresource.Route{Prefix: &p, ActionType: xdsresource.RouteActionRoute,
-					WeightedClusters: []xdsresource.WeightedCluster{{Name: "c" + c, Weight: 1}}})
+			for _, item := range strings.Split(f[1], ",") {
+				cs := strings.Split(item, "+")
+				p := "/c" + cs[0] + "/"
+				if k := seen[cs[0]]; k > 0 {
+					p = "/c" + cs[0] + "x" + strconv.Itoa(k) + "/"
+				}
+				seen[cs[0]]++
+				var wcs []xdsresource.WeightedCluster
+				for _, c := range cs {
+					wcs = append(wcs, xdsresource.WeightedCluster{Name: "c" + c, Weight: 1})
+				}
+				routes = append(routes, &xdsresource.Route{Prefix: &p, ActionType: xdsresource.RouteActionRoute, WeightedClusters: wcs})
 			}
 		}
 		h.client.push(version.V3RouteConfigURL, "rc", &xdsresource.RouteConfigResourceData{Resource: xdsresource.RouteConfigUpdate{
